@@ -99,6 +99,45 @@ pub fn check_endpoint(v: &View, e: Side) -> WireOut {
     // reaction to the peer, even if the id is formally idle, e.g. PRIORITY depending on itself)
     let mut peer_touched: BTreeSet<u32> = BTreeSet::new();
 
+    // A header block is recorded when its last CONTINUATION is written, but its first fragment already
+    // opens the stream for E (which may answer it - e.g. reset a malformed request - before the block is
+    // complete). For every peer write: (t of completion, stream opened by a multi-frame block or 0).
+    let peer_writes: Vec<(u64, u32)> = v
+        .w
+        .trace
+        .evs
+        .iter()
+        .filter(|ev| ev.conn == v.conn)
+        .filter_map(|ev| match &ev.k {
+            EvK::W { dir, idx } if *dir == pd => {
+                let f = v.frame(*dir, *idx);
+                let opened = match &f.body {
+                    Body::Headers { .. } if f.parts.len() > 1 => f.sid,
+                    Body::PushPromise { promised, .. } if f.parts.len() > 1 => *promised,
+                    _ => 0,
+                };
+                Some((ev.t, opened))
+            }
+            _ => None,
+        })
+        .collect();
+    // first connection error that E's library detected itself and reported to a handle: (t, code)
+    let lib_conn_error: Option<(u64, u32)> = v.evs().iter().filter(|ev| ev.conn == v.conn).find_map(|ev| match &ev.k {
+        EvK::Api(a) if a.side == e && a.phase == Phase::Ret => match a.res.err() {
+            Some(er) if er.is_go_away && er.is_library && !er.is_remote && er.reason.map_or(false, |r| r != 0) => Some((ev.t, er.reason.unwrap())),
+            _ => None,
+        },
+        _ => None,
+    });
+    let block_in_flight = |now: u64, sid: u32| -> bool {
+        let i = peer_writes.partition_point(|(t, _)| *t <= now);
+        match peer_writes.get(i) {
+            Some((_, opened)) => *opened == sid && sid != 0,
+            // the history ends inside a block of the peer
+            None => v.w.pipes[v.conn as usize].dirs[pd as usize].parser.unfinished_block_opens() == Some(sid),
+        }
+    };
+
     for ev in v.evs() {
         if ev.conn != v.conn {
             continue;
@@ -403,10 +442,23 @@ pub fn check_endpoint(v: &View, e: Side) -> WireOut {
                         }
                         goaway_last = Some(*last);
                         stats.inc(&p(&format!("goaway.code{}", code)));
+                        if let Some((te, r)) = lib_conn_error {
+                            if t > te {
+                                stats.inc(&p("goaway_after_detected_conn_error"));
+                                if *code == 0 {
+                                    fail(
+                                        &mut viol,
+                                        "C09",
+                                        "goaway-no-error-after-detected-connection-error",
+                                        format!("{}: handles were failed at t={} with a locally detected connection error (code {}), but the GOAWAY written at t={} carries NO_ERROR", e.name(), te, r, t),
+                                    );
+                                }
+                            }
+                        }
                     }
                     Body::WindowUpdate { .. } => {
                         if f.sid != 0 {
-                            check_not_idle(&mut viol, &mut fail, e, f, e_parity, max_e_opened, max_peer_opened);
+                            check_not_idle(&mut viol, &mut fail, e, f, e_parity, max_e_opened, max_peer_opened, block_in_flight(ev.t, f.sid));
                             let st = streams.entry(f.sid).or_default();
                             if st.rst_sent > 0 {
                                 fail(&mut viol, "C04", "frame-after-rst-stream", format!("{}: {} after RST_STREAM", e.name(), f.short()));
@@ -415,7 +467,7 @@ pub fn check_endpoint(v: &View, e: Side) -> WireOut {
                     }
                     Body::Rst { code } => {
                         if !peer_touched.contains(&f.sid) {
-                            check_not_idle(&mut viol, &mut fail, e, f, e_parity, max_e_opened, max_peer_opened);
+                            check_not_idle(&mut viol, &mut fail, e, f, e_parity, max_e_opened, max_peer_opened, block_in_flight(ev.t, f.sid));
                         }
                         let st = streams.entry(f.sid).or_default();
                         st.rst_sent += 1;
@@ -443,7 +495,7 @@ pub fn check_endpoint(v: &View, e: Side) -> WireOut {
                         stats.inc(&p(&format!("rst.code{}", if *code <= 13 { code.to_string() } else { "other".into() })));
                     }
                     Body::Data { flow_len, .. } => {
-                        check_not_idle(&mut viol, &mut fail, e, f, e_parity, max_e_opened, max_peer_opened);
+                        check_not_idle(&mut viol, &mut fail, e, f, e_parity, max_e_opened, max_peer_opened, block_in_flight(ev.t, f.sid));
                         let iws = acked.iws.unwrap_or(65_535) as i64;
                         let st = streams.entry(f.sid).or_default();
                         let l = *flow_len as i64;
@@ -519,7 +571,7 @@ pub fn check_endpoint(v: &View, e: Side) -> WireOut {
                                 stats.inc(&p("opened_after_goaway_read"));
                             }
                         } else {
-                            check_not_idle(&mut viol, &mut fail, e, f, e_parity, max_e_opened, max_peer_opened);
+                            check_not_idle(&mut viol, &mut fail, e, f, e_parity, max_e_opened, max_peer_opened, block_in_flight(ev.t, f.sid));
                         }
                         let st = streams.entry(f.sid).or_default();
                         if !e_is_client && is_own && !st.final_head_sent && st.opened_by_e && !st.counted_open && st.rst_sent == 0 && !st.rst_read_by_e {
@@ -651,8 +703,9 @@ fn check_not_idle(
     e_parity: u32,
     max_e_opened: u32,
     max_peer_opened: u32,
+    peer_block_in_flight: bool,
 ) {
-    if f.sid == 0 {
+    if f.sid == 0 || peer_block_in_flight {
         return;
     }
     let own = f.sid % 2 == e_parity;
